@@ -74,6 +74,7 @@ type Options struct {
 	MaxCexPerLbl  int
 	Pin           map[string]interface{} // concrete replay inside the interpreter
 	Verbose       bool
+	Witnesses     int // number of completed paths whose model is written out for native validation
 }
 
 type Engine struct {
@@ -103,6 +104,7 @@ type Engine struct {
 	Samples       []Sample
 	AssertLabels  map[string]int
 	Budget        string
+	Witnesses     []string
 	scriptN       int
 }
 
@@ -580,6 +582,18 @@ func (e *Engine) endPath(res interface{}) {
 	switch x := res.(type) {
 	case nil:
 		e.Paths++
+		if len(e.Witnesses) < e.Opt.Witnesses && len(e.nondets) > 0 {
+			if r, model, solver, f := e.decide(term.True, "witness"); r == smt.Sat {
+				c := e.mkCex("witness", "", solver, model)
+				os.MkdirAll(e.Opt.OutDir, 0o755)
+				c.File = filepath.Join(e.Opt.OutDir, fmt.Sprintf("%s-c%d-witness%d.json", e.Opt.Harness, e.Opt.Case, len(e.Witnesses)))
+				b, _ := json.MarshalIndent(c, "", " ")
+				os.WriteFile(c.File, b, 0o644)
+				e.Witnesses = append(e.Witnesses, c.File)
+			} else if f != "" {
+				os.Remove(f)
+			}
+		}
 		if len(e.Samples) < 3 || (e.Paths%97 == 0 && len(e.Samples) < 6) {
 			s := Sample{Path: e.Paths, PCSize: len(e.pc), Asserts: e.pathAsserts}
 			for _, d := range e.prefix {
